@@ -172,6 +172,9 @@ class Gen:
             # a later stage that never reads its input makes the earlier one race against SIGPIPE:
             # simple stages use the draining helpers pc/nc; otherwise behaviour is not compared
             c = seq[k]
+            if c[0] == "simple" and any(it[0] == "r" and (it[1][0] in ("hs", "hd") or (it[1][0] == "file" and it[1][2][0] == "<"))
+                                        for it in c[1] + c[3]):
+                self.norun = True      # its stdin is redirected away from the pipe: nobody drains the pipe
             if c[0] == "simple" and c[2] in ("p", "n", "echo", "true", "false", ":"):
                 seq[k] = ("simple", c[1], "pc" if c[2] in ("p", "echo", "true", ":") else "nc", c[3])
             elif not (c[0] == "simple" and c[2] == "cat"):
